@@ -14,10 +14,10 @@ def run(res, facts):
     res.floor("C08.R7", 2)
 
 
-def format_token(res, facts):
+def format_token(res, facts, rule="C08.R6"):
     bs = [b for bid, b in facts.bodies.items() if re.search(r"paseto::Paseto::<'a, Version, Purpose>::format_token$", bid)]
     if len(bs) != 1:
-        res.violate("C08.R6", "Paseto::format_token", "anchor missing", "expected one format_token")
+        res.violate(rule, "Paseto::format_token", "anchor missing", "expected one format_token")
         return
     b = bs[0]
     v = M.view(facts, b)
@@ -63,16 +63,16 @@ def format_token(res, facts):
                 why.append("token text is %s, the specification's is %s" % ("".join(shape), "".join(want)))
         res.oblige(okk)
         if okk:
-            res.inst("C08.R6", "format_token with %s -> %s" % (name, "header payload '.' b64url(footer)" if want_segment else "header payload (no footer segment)"))
+            res.inst(rule, "format_token with %s -> %s" % (name, "header payload '.' b64url(footer)" if want_segment else "header payload (no footer segment)"))
         else:
-            res.violate("C08.R6", b["id"], "token text with " + name, "; ".join(why)[:500], file=v.file(), line=b["line"])
+            res.violate(rule, b["id"], "token text with " + name, "; ".join(why)[:500], file=v.file(), line=b["line"])
 
 
-def pae(res, facts):
+def pae(res, facts, rule="C08.R7"):
     le = facts.bodies.get("crate::core::common::pre_authentication_encoding::PreAuthenticationEncoding::le64")
     pa = facts.bodies.get("crate::core::common::pre_authentication_encoding::PreAuthenticationEncoding::parse")
     if le is None or pa is None:
-        res.violate("C08.R7", "PreAuthenticationEncoding", "anchor missing", "le64 / parse not found")
+        res.violate(rule, "PreAuthenticationEncoding", "anchor missing", "le64 / parse not found")
         return
 
     def le64_of(aff):
@@ -96,9 +96,9 @@ def pae(res, facts):
     res.oblige(okk)
     v = M.view(facts, le)
     if okk:
-        res.inst("C08.R7", "le64(x) = [(x >> 8i) & 0xff for i in 0..8]  (little endian, all 64 bits)")
+        res.inst(rule, "le64(x) = [(x >> 8i) & 0xff for i in 0..8]  (little endian, all 64 bits)")
     else:
-        res.violate("C08.R7", le["id"], "LE64 byte table", "le64(x) must be the 8 little-endian bytes of x; abstract evaluation gives %s" % ([repr(o) for o in outs][:2],), file=v.file(), line=le["line"])
+        res.violate(rule, le["id"], "LE64 byte table", "le64(x) must be the 8 little-endian bytes of x; abstract evaluation gives %s" % ([repr(o) for o in outs][:2],), file=v.file(), line=le["line"])
     # parse on two symbolic pieces
     I = A.Interp(facts, MD.MODELS)
     st = A.State()
@@ -128,6 +128,6 @@ def pae(res, facts):
     res.oblige(okk)
     v = M.view(facts, pa)
     if okk:
-        res.inst("C08.R7", "PAE([A, B]) = LE64(2) || LE64(len A) || A || LE64(len B) || B")
+        res.inst(rule, "PAE([A, B]) = LE64(2) || LE64(len A) || A || LE64(len B) || B")
     else:
-        res.violate("C08.R7", pa["id"], "PAE framing", "PAE([A, B]) must be LE64(2) || LE64(len A) || A || LE64(len B) || B; abstract evaluation gives %s" % (str(got)[:300] if got else [repr(o) for o in outs][:2]), file=v.file(), line=pa["line"])
+        res.violate(rule, pa["id"], "PAE framing", "PAE([A, B]) must be LE64(2) || LE64(len A) || A || LE64(len B) || B; abstract evaluation gives %s" % (str(got)[:300] if got else [repr(o) for o in outs][:2]), file=v.file(), line=pa["line"])
